@@ -87,7 +87,13 @@ def run(ctx):
     env = dict(os.environ, GORACE="halt_on_error=0 history_size=3")
     p = subprocess.run([rbin, os.path.join(wd, "t.ndjson"), str(ctx.seed), str(max(2, rounds // 2))], cwd=wd, capture_output=True, text=True, timeout=1200, env=env)
     cov["race_runs"] = 1
-    reports = re.split(r"={18}\n", p.stderr)
+    # and free-running (no event sink, no parking): the hooks' mutex orders the flusher's steps before the session's next
+    # statement, which would hide an access made outside the lock from happens-before analysis
+    wd2 = ctx.sub("race-free")
+    p2 = subprocess.run([rbin, os.path.join(wd2, "t.ndjson"), str(ctx.seed + 7), str(max(3, rounds // 2))], cwd=wd2, capture_output=True, text=True,
+                        timeout=1200, env=dict(env, VERIF_LOCKS_FREE="1"))
+    cov["race_runs"] = 2
+    reports = re.split(r"={18}\n", p.stderr) + re.split(r"={18}\n", p2.stderr)
     stmt_fn = re.compile(r"engine\.Evaluate(CreateTable|Insert|Update|Delete|Select)\b")
     n_listed, n_other = 0, 0
     for rep in reports:
